@@ -211,3 +211,50 @@ def run_dim_open(prog, rep):
         rule.check(ret == e and ctor_sets, key, rep.where(sw), op.q, '%s -> %s, whose dimensionType() is %s and whose constructors call setType()' % (e.split('::')[-1], cls, e.split('::')[-1]),
                    'stored kind %s opens %s whose dimensionType() returns %s (constructors call setType: %s)' % (e, cls, ret, ctor_sets))
     return rule
+
+
+# time stamps are stored as text: the text codec must be a function of the time_t alone
+TIME_ENV_DEP = ('localtime', 'localtime_r', 'mktime', 'timelocal', 'strftime', 'strptime', 'ctime', 'ctime_r', 'asctime',
+                'tzset', 'setlocale', 'getenv', 'local_time', 'utc_to_local', 'local_to_utc', 'imbue', 'getloc', 'global')
+TIME_ENV_CLS = ('c_local_adjustor', 'local_adjustor', 'local_date_time', 'time_zone', 'locale')
+TIME_FORMAT_PAIRS = {'to_iso_string': ('from_iso_string',), 'to_iso_extended_string': ('from_iso_extended_string', 'time_from_string'),
+                     'to_simple_string': ('time_from_string',)}
+
+
+def run_time_codec(prog, rep):
+    """timeToStr / strToTime are inverse, environment-independent conversions"""
+    rule = rep.rule('R-TIMECODEC', 'the time stamp text codec (timeToStr / strToTime) depends on the time_t alone: no time-zone, locale or environment dependent call, and parser and formatter use the same text format', floor=3)
+    enc = prog.fn('nix::util::timeToStr')
+    dec = prog.fn('nix::util::strToTime')
+    seen = {}
+    for f in (enc, dec):
+        # the function and every nix:: function it reaches
+        todo, fs = [f], []
+        while todo:
+            g = todo.pop()
+            if g in fs or g.body is None:
+                continue
+            fs.append(g)
+            for c in g.calls():
+                if (c.callee.get('q') or '').startswith('nix::'):
+                    todo.extend(prog.resolve_call(c) or [])
+        probs = []
+        names = []
+        for g in fs:
+            for c in g.calls():
+                nm, q = c.callee.get('name') or '', c.callee.get('q') or ''
+                names.append(nm)
+                if nm in TIME_ENV_DEP or any(k in q for k in TIME_ENV_CLS):
+                    probs.append('%s at %s' % (q or nm, rep.where(c)))
+        seen[f] = names
+        if not names:
+            raise AnalysisBroken('R-TIMECODEC: no calls found in %s' % f.q)
+        rule.check(not probs, '%s|environment-independent' % f.q.split('::')[-1], rep.where(f), f.label(),
+                   '%d call(s) in %d function(s), none depends on the time zone, the locale or the environment' % (len(names), len(fs)),
+                   'calls %s: the text written for a time stamp (or the time read back from it) changes with TZ / locale, so a file reopened in another process or environment shows other creation times' % '; '.join(probs))
+    fm = [n for n in seen[enc] if n in TIME_FORMAT_PAIRS]
+    ps = [n for n in seen[dec] if n.startswith('from_') or n == 'time_from_string']
+    ok = len(fm) == 1 and len(ps) == 1 and ps[0] in TIME_FORMAT_PAIRS[fm[0]]
+    rule.check(ok, 'timeToStr~strToTime|format', rep.where(enc), enc.label(), 'formatter %s, parser %s' % (fm, ps),
+               'formatter %s and parser %s are not a matching pair' % (fm or 'none recognised', ps or 'none recognised'))
+    return rule
